@@ -359,3 +359,24 @@ impl ConnectError {
         Self::RemoteAbort(reason)
     }
 }
+
+/// Verification hooks: access to the private session drivers.
+#[cfg(feature = "verif")]
+#[allow(missing_docs)]
+pub mod verif {
+    use tokio::io::{AsyncRead, AsyncWrite};
+
+    pub use super::codec::BobState;
+    use super::*;
+
+    pub async fn run_alice<R: AsyncRead + Unpin, W: AsyncWrite + Unpin>(
+        writer: &mut W,
+        reader: &mut R,
+        handle: &SyncHandle,
+        namespace: NamespaceId,
+        peer: PublicKey,
+    ) -> Result<SyncOutcome, ConnectError> {
+        super::codec::run_alice(writer, reader, handle, namespace, peer).await
+    }
+    pub use super::codec::verif_codec::*;
+}
